@@ -129,7 +129,7 @@ def explore(ctx):
         base = add_marks(dsgen.base_master(rng, anchors=True, max_depth=1,
                                            classes=["identity", "shear", "general_small"]))
         multi = (i % 6 == 5) and not two_axes      # several variable fonts in one designspace, one built from a subset of the sources
-        n = 4 if two_axes else (3 if multi else rng.choice([2, 3]))
+        n = 4 if two_axes else (3 if multi else [3, 2][i % 2])
         masters = [base] + [dsgen.perturb(rng, base, k, amount=40) for k in range(1, n)]
         names = [g["name"] for g in base["glyphs"]]
         # a pure composite whose component 2x2 differs between masters in ONE entry only (gvar cannot vary a 2x2: the glyph
@@ -155,7 +155,26 @@ def explore(ctx):
             m["groups"] = dict(groups)
             m["kerning"][("public.kern1.L", "public.kern2.R")] = Fr(-50 - 15 * k)
             m["kerning"][(names[2], "public.kern2.R")] = Fr(12 + 4 * k)
-        if vfeat and rng.random() < 0.6:
+        nonmono = n == 3 and not multi and not two_axes and i % 4 in (0, 2)
+        if nonmono:
+            # values that are NOT monotonic along the axis: the class pair is the same in the first and the last master and
+            # different in the middle one, the exception the same in the first two and different in the last; likewise a
+            # base anchor and the mark's anchor -- a variable value must not be collapsed to a constant because two of its
+            # masters agree
+            vfeat = i % 4 == 0
+            masters[2]["kerning"][("public.kern1.L", "public.kern2.R")] = masters[0]["kerning"][("public.kern1.L", "public.kern2.R")]
+            masters[1]["kerning"][(names[2], "public.kern2.R")] = masters[0]["kerning"][(names[2], "public.kern2.R")]
+            def set_anchor(m, gname, aname, src):
+                g = next(x for x in m["glyphs"] if x["name"] == gname)
+                s0 = next(x for x in src["glyphs"] if x["name"] == gname)
+                a0 = next((a for a in s0["anchors"] if a[0] == aname), None)
+                if a0 is not None:
+                    g["anchors"] = [a0 if a[0] == aname else a for a in g["anchors"]]
+            with_top = [g["name"] for g in base["glyphs"] if any(a[0] == "top" for a in g["anchors"]) and g["name"] != "acutecomb"]
+            if with_top:
+                set_anchor(masters[2], with_top[0], "top", masters[0])
+            set_anchor(masters[1], "acutecomb", "_top", masters[0])
+        if vfeat and not nonmono and rng.random() < 0.6:
             # ... and 0 in one non-default master (with merged per-master layout the pair sets must be identical)
             masters[rng.randrange(1, n)]["kerning"][("public.kern1.L", "public.kern2.R")] = Fr(0)
         propagate = (i % 5 == 3) and any(g["components"] for g in base["glyphs"])
@@ -237,6 +256,8 @@ def explore(ctx):
             ctx.klass("%s/vfeat=%s%s%s%s" % (fn, vfeat, "/2axes" if two_axes else "", "/propagateAnchors" if propagate else "",
                                              ("/" + vname) if vname else ""))
             ctx.nontriv((fn, i, k, vname, ctx.scale))
+            if nonmono:
+                ctx.klass("values not monotonic along the axis (two masters agree, the third differs)")
             if diff2x2:
                 ctx.klass("component 2x2 differs between masters: %s only" % diff2x2[1])
             c2 = dict(case, master=k, location=loc, variable_font=vname or None)
